@@ -95,6 +95,16 @@ def st_case(draw):
             }
         )
     case["responses"] = resp
+    if draw(st.integers(0, 2)) == 0:
+        # an earlier, completed request on the same socket and connection (its handles must keep reading its own responses)
+        n1 = draw(st.integers(1, 2))
+        case["before"] = {
+            "api": draw(st.sampled_from(["recv_measure", "create_measure", "recv_keep", "create_keep"])),
+            "number": n1,
+            "flush": draw(st.booleans()),
+            "responses": [{"create_id": 7000 + 13 * i, "sequence_number": 7001 + 13 * i, "goodness": 7002 + 13 * i, "goodness_time": 7003 + 13 * i,
+                           "bell_state": draw(st.integers(0, 3)), "measurement_outcome": draw(st.integers(0, 1)), "measurement_basis": 0} for i in range(n1)],
+        }
     return case
 
 
@@ -126,6 +136,23 @@ def check(case) -> Dict[str, Any]:
             kw[k] = tuple(v)
         else:
             kw[k] = v
+    before = case.get("before")
+    n_before = 0
+    before_result = None
+    if before:
+        b_role = "create" if before["api"].startswith("create") else "recv"
+        b_tp = "K" if before["api"].endswith("keep") else "M"
+        before_result = getattr(sock, before["api"])(number=before["number"])
+        stack.expect(b_role, b_tp, before["number"], [dict(r) for r in before["responses"]], remote_node_id=remote_id, purpose_id=case["socket_id"])
+        if b_tp == "K":
+            for q in before_result:
+                q.measure()
+        n_before = before["number"]
+        if before["flush"]:
+            try:
+                conn.flush()
+            except sim.WouldBlock:
+                return {"rejected": "blocked:before"}
     outcomes_arr = None
     is_ctx = api in ("create_context", "recv_context")
     if kw.get("sequential") and not is_ctx:
@@ -176,9 +203,10 @@ def check(case) -> Dict[str, Any]:
     # ------------------------------------------------ request as seen by the stack
     info: Dict[str, Any] = {"nondefault": bool(case["kw"])}
     if role == "create":
-        if len(stack.requests) != 1:
+        n_req = 1 + (1 if before and before["api"].startswith("create") else 0)
+        if len(stack.requests) != n_req:
             raise Failure(f"request-count:{api}", case, f"stack received {len(stack.requests)} requests")
-        req = stack.requests[0]
+        req = stack.requests[-1]
         rtype = {"create_keep": "K", "create_keep_with_info": "K", "create_measure": "M", "create_rsp": "R", "create_context": "K"}[api]
         want = dict(zip(LinkLayerCreate._fields, LinkLayerCreate.__new__.__defaults__))
         want.update(remote_node_id=remote_id, purpose_id=case["socket_id"], type=RequestType[rtype], number=number)
@@ -220,10 +248,25 @@ def check(case) -> Dict[str, Any]:
                 if val(getattr(q1, a)) != val(want[b]):
                     raise Failure(f"qlink-field:{a}", case, f"{api}: link-layer request has {a}={getattr(q1, a)!r}, the call asked for {want[b]!r}")
     else:
-        if stack.requests:
+        if len(stack.requests) != (1 if before and before["api"].startswith("create") else 0):
             raise Failure(f"request-count:{api}", case, "receiver side sent a create request")
     # ------------------------------------------------ results
-    delivered = stack.delivered
+    delivered = stack.delivered[n_before:]
+    if before:
+        for i, r in enumerate(stack.delivered[:n_before]):
+            h = before_result[i]
+            if before["api"].endswith("keep"):
+                ent = h.entanglement_info
+                pairs = [("entanglement_info." + fld, getattr(ent, fld), getattr(r, fld)) for fld in r._fields]
+            else:
+                pairs = [("raw_measurement_outcome", h.raw_measurement_outcome, r.measurement_outcome), ("generation_duration", h.generation_duration, r.goodness),
+                         ("raw_bell_state", h.raw_bell_state, r.bell_state), ("remote_node_id", h.remote_node_id, r.remote_node_id)]
+            for what, got, want_v in pairs:
+                g_ = got.value if hasattr(got, "_connection") else got
+                g_ = g_.value if hasattr(g_, "value") and not isinstance(g_, int) else g_
+                w_ = want_v.value if hasattr(want_v, "value") and not isinstance(want_v, int) else want_v
+                if g_ != w_:
+                    raise Failure(f"result:earlier-request:{what}", case, f"{before['api']} issued before {api}: pair {i}: {what} reads {g_!r}, its link-layer response has {w_!r}")
 
     def fval(x):
         v = x.value if hasattr(x, "value") and not isinstance(x, int.__class__) else x
@@ -238,7 +281,8 @@ def check(case) -> Dict[str, Any]:
     if is_ctx:
         # no per-pair handles besides the qubit: every delivered qubit was consumed by the body of its own iteration
         measured = [e for e in getattr(ctrl._executor, "events", []) if e[0] == "meas"]
-        if len(measured) != number or len(delivered) != number:
+        n_meas_before = n_before if before and before["api"].endswith("keep") else 0
+        if len(measured) != number + n_meas_before or len(delivered) != number:
             raise Failure("result:context-iterations", case, f"{api}: the context body measured {len(measured)} qubits for {number} pairs ({len(delivered)} responses delivered)")
     elif tp == "K":
         if api.endswith("with_info"):
@@ -298,7 +342,7 @@ def shard(ctx: Ctx) -> None:
             stt.evaluations += 1
             return
         nt = case["number"] >= 2 or bool(case["kw"])
-        labels = [case["api"], f"pairs:{case['number']}", case["hardware"]] + [f"kw:{k}" for k in case["kw"]] + (["deprecated-alias"] if case.get("alias") else [])
+        labels = [case["api"], f"pairs:{case['number']}", case["hardware"]] + [f"kw:{k}" for k in case["kw"]] + (["deprecated-alias"] if case.get("alias") else []) + (["after:" + case["before"]["api"]] if case.get("before") else [])
         stt.case({k: v for k, v in case.items()}, nt, labels, sample={k: case[k] for k in ("role", "api", "number", "kw", "hardware")})
 
     ctx.search(st_case(), body, n, name="c11")
